@@ -8,6 +8,7 @@ mod checks;
 mod dbview;
 mod engine;
 mod gen;
+mod model;
 mod oracle;
 mod spec;
 
